@@ -1,0 +1,43 @@
+// Copyright 2026 Dolthub, Inc.
+//
+// Licensed under the Apache License, Version 2.0 (the "License");
+// you may not use this file except in compliance with the License.
+// You may obtain a copy of the License at
+//
+//     http://www.apache.org/licenses/LICENSE-2.0
+//
+// Unless required by applicable law or agreed to in writing, software
+// distributed under the License is distributed on an "AS IS" BASIS,
+// WITHOUT WARRANTIES OR CONDITIONS OF ANY KIND, either express or implied.
+// See the License for the specific language governing permissions and
+// limitations under the License.
+
+//go:build verif
+
+package nbs
+
+// Read-only re-exports used by the /verif correspondence harness for property
+// C41 (single writer per database directory; read-only opens are pure).
+// Add-only; compiled only with -tags verif.
+
+// VerifC41ErrReadOnlyManifest is the sentinel returned by every mutating path
+// of a journaling store that did not obtain the directory LOCK.
+var VerifC41ErrReadOnlyManifest = errReadOnlyManifest
+
+const (
+	// File names inside a journaling store directory.
+	VerifC41LockFileName         = lockFileName
+	VerifC41ManifestFileName     = manifestFileName
+	VerifC41JournalFileName      = chunkJournalName
+	VerifC41JournalIndexFileName = journalIndexFileName
+
+	// On-disk sizes of the two journal index record kinds (tag byte included).
+	VerifC41IndexLookupRecSize = indexRecTypeSize + lookupSz
+	VerifC41IndexMetaRecSize   = indexRecTypeSize + lookupMetaSz
+
+	// Number of novel lookups after which a journal index batch is sealed.
+	VerifC41IndexMaxNovel = journalIndexDefaultMaxNovel
+)
+
+// VerifC41RootHashRecordSize is the on-disk size of a root hash journal record.
+func VerifC41RootHashRecordSize() int { return rootHashRecordSize() }
